@@ -766,6 +766,10 @@ class Sym:
                 if e and e[0] == size:
                     v = e[1]
                     return v
+                if e is None:
+                    for k_, (n_, v_) in m.items():
+                        if isinstance(k_, tuple) and k_[0] == 'memcpy' and v_[0] == 'ldblk' and k_[1] <= off and off + size <= k_[1] + k_[2] and isinstance(v_[2], int):
+                            return ('ld', v_[1], v_[2] + off - k_[1], size, ty, self._ep(v_[1]))
                 if e is None and not any(isinstance(o, int) and o < off + size and o + s0 > off for o, (s0, _) in m.items()):
                     best = None
                     for k, (sz, v) in m.items():
@@ -1051,11 +1055,15 @@ def subword(v0, s0, delta, size, ty):
 def walk(t, f, seen=None):
     if seen is None:
         seen = set()
-    if not isinstance(t, tuple) or id(t) in seen:
+    if not isinstance(t, tuple) or id(t) in seen or not t:
         return
     seen.add(id(t))
-    f(t)
-    for x in t[1:]:
+    if isinstance(t[0], str):
+        f(t)
+        rest = t[1:]
+    else:
+        rest = t
+    for x in rest:
         if isinstance(x, tuple):
             walk(x, f, seen)
 
